@@ -27,8 +27,11 @@ Definition const_safe (v : obj) : bool :=
   | _ => self_evaluating v
   end.
 
+(* a user's name: plain, unqualified, and not one of the constants bound to themselves *)
+Definition name_ok (n : string) : bool :=
+  plain_name n && negb (has_colon n) && negb (existsb (String.eqb n) self_bound).
 Definition var_ok (kv : string * vrec) : bool :=
-  plain_name (fst kv) &&
+  name_ok (fst kv) &&
   match snd kv with
   | mkV (Some v) _ true => const_safe v
   | mkV (Some v) _ false => snap_safe v
@@ -52,7 +55,7 @@ Definition calls_ok (funs : list (string * frec)) (kv : string * frec) : bool :=
                     | None => true
                     end) (flat_map heads (f_body (snd kv))).
 Definition fun_ok (funs : list (string * frec)) (kv : string * frec) : bool :=
-  plain_name (fst kv) && lam_ok (f_ll (snd kv)) (f_doc (snd kv)) (f_body (snd kv)) && calls_ok funs kv.
+  name_ok (fst kv) && lam_ok (f_ll (snd kv)) (f_doc (snd kv)) (f_body (snd kv)) && calls_ok funs kv.
 
 Definition sess_ok (s : session) : bool :=
   forallb var_ok (s_vars s) && forallb (fun_ok (s_funs s)) (s_funs s).
@@ -82,4 +85,6 @@ Definition session_eqb (a b : session) : bool :=
   alist_eqb vrec_eqb (s_vars a) (s_vars b) && alist_eqb frec_eqb (s_funs a) (s_funs b).
 
 Definition meets_spec (s : session) : bool :=
-  session_eqb (canon (reload_session s)) (canon s) && objs_eqb (snapshot (reload_session s)) (snapshot s).
+  forallb (fun b => b) (snd (load_forms empty_session (snapshot s)))       (* every form of the snapshot loads *)
+  && session_eqb (canon (reload_session s)) (canon s)                       (* the same definitions *)
+  && objs_eqb (snapshot (reload_session s)) (snapshot s).                   (* the same snapshot again *)
